@@ -221,7 +221,7 @@ def _result_use(cf, f, b, i, stmt, call):
     if b in through:
         return ('checked', 'tested in the same block')
     targets = (redefs | {cf.exit}) - {b}
-    if cf.must_pass(b, targets, through):
+    if cf.must_pass_live(b, targets, through):
         return ('checked', 'local %s is tested or returned on every path before being overwritten' % lv[1])
     return ('unchecked', 'local %s receives the result but some path reaches a redefinition or the exit without testing it' % lv[1])
 
